@@ -12,9 +12,11 @@
 EXTENDS TraceLib, ChainProps
 
 VARIABLES l, kind, T, TD, valid, sameas, alltx, O, Oprev, given, rewound, light,
-          results, lastop
+          results, lastop,
+          pruning,      \* the node of this run garbage-collects state (mode "pruning")
+          executed      \* blocks this node has executed since the run began (they appear in an op's `imported` list)
 
-tvars == <<l, kind, T, TD, valid, sameas, alltx, O, Oprev, given, rewound, light, results, lastop>>
+tvars == <<l, kind, T, TD, valid, sameas, alltx, O, Oprev, given, rewound, light, results, lastop, pruning, executed>>
 
 Ev == Trace[l]
 Is(e) == l <= NLines /\ Ev.e = e /\ l' = l + 1 /\ Consumed(l)
@@ -29,6 +31,8 @@ ObsOf(j) ==
    \* a lookup counts as resolving to <<block, index>> only if the transaction and its receipt read back
    lookup |-> [t \in DOMAIN j.lookup |->
                  IF j.lookup[t][3] /\ j.lookup[t][4] THEN <<j.lookup[t][1], j.lookup[t][2]>> ELSE <<"BAD", 0>>],
+   \* transactions that read back while their receipt does not: where the entry points
+   noRcpt |-> [t \in {x \in DOMAIN j.lookup : j.lookup[x][3] /\ ~j.lookup[x][4]} |-> <<j.lookup[t][1], j.lookup[t][2]>>],
    headState |-> j.headState]
 
 NoObs == [head |-> "g", hhead |-> "g"]
@@ -36,7 +40,7 @@ NoObs == [head |-> "g", hhead |-> "g"]
 TInit ==
   /\ l = 1 /\ kind = "init" /\ T = <<>> /\ TD = <<>> /\ valid = <<>> /\ sameas = <<>> /\ alltx = {}
   /\ O = NoObs /\ Oprev = NoObs /\ given = {} /\ rewound = FALSE /\ light = FALSE
-  /\ results = <<>> /\ lastop = [op |-> "none"]
+  /\ results = <<>> /\ lastop = [op |-> "none"] /\ pruning = FALSE /\ executed = {}
   /\ InitHW
 
 BlkIds(bl) == {bl[k].id : k \in 1..Len(bl)}
@@ -57,13 +61,14 @@ TTree ==
         /\ results' = [b \in {x \in ids : BlkOf(bl, x).valid} |-> [r |-> {BlkOf(bl, b).rsig}, s |-> {BlkOf(bl, b).ssig}]]
   /\ alltx' = SetOf(Ev.alltx)
   /\ kind' = "tree"
-  /\ UNCHANGED <<O, Oprev, given, rewound, light, lastop>>
+  /\ UNCHANGED <<O, Oprev, given, rewound, light, lastop, pruning, executed>>
 
 TRun ==
   /\ Is("run")
   /\ O' = ObsOf(Ev.obs) /\ Oprev' = ObsOf(Ev.obs)
   /\ given' = {"g"} /\ rewound' = FALSE /\ light' = FALSE
   /\ kind' = "run" /\ lastop' = [op |-> "run", mode |-> Ev.mode]
+  /\ pruning' = (Ev.mode = "pruning") /\ executed' = {}
   /\ UNCHANGED <<T, TD, valid, sameas, alltx, results>>
 
 \* blocks of the batch that were processed without error
@@ -90,13 +95,14 @@ TOp ==
   /\ results' = IF Ev.op = "insert" THEN AddResults(results, Ev.imported) ELSE results
   /\ lastop' = [op |-> Ev.op, blocks |-> Ev.blocks, err |-> Ev.err, idx |-> Ev.idx]
   /\ kind' = "op"
-  /\ UNCHANGED <<T, TD, valid, sameas, alltx>>
+  /\ executed' = IF Ev.op = "insert" THEN executed \cup {Ev.imported[k].id : k \in 1..Len(Ev.imported)} ELSE executed
+  /\ UNCHANGED <<T, TD, valid, sameas, alltx, pruning>>
 
 \* the repository's block builder crashed while assembling a valid chain (recorded by the driver)
 TGenFail ==
   /\ Is("genfail")
   /\ kind' = "genfail"
-  /\ UNCHANGED <<T, TD, valid, sameas, alltx, results, O, Oprev, given, rewound, light, lastop>>
+  /\ UNCHANGED <<T, TD, valid, sameas, alltx, results, O, Oprev, given, rewound, light, lastop, pruning, executed>>
 
 TNext == TTree \/ TRun \/ TOp \/ TGenFail
 TSpec == TInit /\ [][TNext]_tvars
@@ -113,14 +119,31 @@ RestartKeepsHeadT == (kind = "op" /\ lastop.op = "restart") => O.head = Oprev.he
 \* C03
 CanonIsAncestryT == AtRest => CanonIsAncestry(T, O)
 NothingAboveHeadT == AtRest => NothingAboveHead(T, O)
-RetrievableT == AtRest => Retrievable(T, O)
+\* KNOWN FINDING D18 (KNOWN_FINDINGS.json, "ghost state"): on a pruning node whose ancestor state is gone (it was restarted), a side
+\* block is stored WITHOUT being executed (ErrPrunedAncestor -> WriteBlockWithoutState); if the state root it claims happens to be
+\* stored already (a sibling with the same content has it), HasBlockAndState takes the block for an executed one, its child is
+\* executed on that state and the reorganisation makes the never-executed block canonical: it has no receipts.  Exactly such blocks
+\* - body stored, never executed by this node, no receipts, state root shared with another block of the tree - are tolerated.
+\* The same happens without a restart when a fork point lies more than 128 blocks below the head (its state was collected).
+\* (the blocks between the fork point and the block with the shared root are made canonical in the same way)
+Unexecuted(b) == pruning /\ b \notin executed /\ b \in O.hasBody /\ b \notin O.hasRcpt /\ b \in DOMAIN results
+Anchor(g) == /\ Unexecuted(g) /\ IsAncestorOrSelf(T, g, O.head)
+             /\ \E c \in DOMAIN results : c # g /\ results[c].s \cap results[g].s # {}
+Anchors == {g \in DOMAIN T.num : Anchor(g)}
+Ghost(b) == Unexecuted(b) /\ \E g \in Anchors : IsAncestorOrSelf(T, b, g)
+GhostNow == IF AtRest /\ pruning /\ Anchors # {} THEN {b \in DOMAIN T.num : Ghost(b)} ELSE {}
+KnownD18 == GhostNow # {} /\ PrintT(<<"KNOWN", "D18", l - 1>>)
+KnownFindingsT == AtRest => (KnownD18 \/ TRUE)
+PatchedO == [O EXCEPT !.hasRcpt = @ \cup GhostNow,
+                      !.lookup = [t \in DOMAIN O.lookup |-> IF t \in DOMAIN O.noRcpt /\ O.noRcpt[t][1] \in GhostNow THEN O.noRcpt[t] ELSE O.lookup[t]]]
+RetrievableT == AtRest => Retrievable(T, PatchedO)
 \* the canonical blocks that can contain transactions: the gap-free run of canonical numbers whose bodies are present.  Normally its top
 \* is the block head; after a rewind on a pruning node the block head may fall further back (to a block whose state is on disk) while
 \* the bodies up to the header head stay canonical and their transactions stay resolvable
 BodyCanonTop == LET ns == {n \in Heights(O) : \A m \in 0..n : O.canonB[m] # NoBlock}
                     top == CHOOSE n \in ns : \A k \in ns : k <= n
                 IN O.canonB[top]
-LookupT == AtRest => LookupIffCanonical(T, [O EXCEPT !.head = BodyCanonTop], alltx)
+LookupT == AtRest => LookupIffCanonical(T, [PatchedO EXCEPT !.head = BodyCanonTop], alltx)
 HeadsKnownT == AtRest => O.head \in DOMAIN T.num /\ O.hhead \in DOMAIN T.num
 
 \* header-first import: a batch containing a header that breaks a consensus rule fails, and that header is not stored - whatever part of
@@ -140,7 +163,10 @@ ImportFunctionalT == kind = "op" => ImportFunctional(results)
 
 IsInsert == kind = "op" /\ lastop.op = "insert"
 Batch == lastop.blocks
-ParentKnown == T.parent[Batch[1]] \in Oprev.hasBody /\ T.parent[Batch[1]] \in DOMAIN Oprev.td
+\* the parent is stored with its total difficulty - and, as in Chain.tla's ImportBlock, the grandparent's header, which the
+\* difficulty rule reads: after a rewind a block of a side branch can outlive its own parent ("nil grandparent")
+ParentKnown == /\ T.parent[Batch[1]] \in Oprev.hasBody /\ T.parent[Batch[1]] \in DOMAIN Oprev.td
+               /\ (T.num[Batch[1]] >= 2 => T.parent[T.parent[Batch[1]]] \in Oprev.hasHeader)
 
 \* "a block assembled by the node's own block-building path is accepted by its own import path"
 ValidAcceptedT ==
